@@ -165,9 +165,16 @@ def _check_date(e):
 
     for tgt, capnode, label in (("arbeitsl_geld_2_m_bg", "arbeitsl_geld_2_vor_vorrang_m_bg", "ALG II after the priority checks <= entitlement before them"),
                                 ("wohngeld_m_wthh", "wohngeld_anspruchshöhe_m_wthh", "Wohngeld paid <= Wohngeld entitlement"),
-                                ("kinderzuschl_m_bg", "_kinderzuschl_nach_vermög_check_m_bg", "Kinderzuschlag paid <= amount after the wealth check")):
+                                ("kinderzuschl_m_bg", "_kinderzuschl_nach_vermög_check_m_bg", "Kinderzuschlag paid <= amount after the wealth check"),
+                                ("unterhaltsvors_m", "_unterhaltsvors_anspruch_kind_m", "Unterhaltsvorschuss paid <= entitlement before the alimony received is credited (+ rounding step)")):
         if tgt in T and capnode in dag:
-            cap(label, tgt, [*pre_args(tgt), V(capnode) >= 0], V(capnode))
+            # a target that is rounded itself may exceed the unrounded entitlement by less than one grid step
+            slack = 0
+            for grp in e.params.values():
+                sp_ = grp.get("rounding", {}).get(tgt) if isinstance(grp, dict) and isinstance(grp.get("rounding"), dict) else None
+                if isinstance(sp_, dict) and "base" in sp_ and "params_key_for_rounding" in (getattr(df.fno.get(tgt), "__info__", None) or {}):
+                    slack = symx.frac_to_z3real(Fraction(repr(float(sp_["base"]))) + abs(Fraction(repr(float(sp_.get("to_add_after_rounding", 0))))))
+            cap(label, tgt, [*pre_args(tgt), V(capnode) >= 0], V(capnode), slack=slack)
     # Elterngeld
     if "elterngeld_m" in T and "elterngeld_anspruchshöhe_m" in T:
         p = e.params["elterngeld"]
